@@ -43,6 +43,9 @@ type tplGen struct {
 }
 
 func (g *tplGen) atom() string {
+	if g.r.Chance(1, 25) {
+		return hx.Pick(g.r, numberLiterals())
+	}
 	switch g.r.Intn(10) {
 	case 0, 1, 2, 3:
 		return hx.Pick(g.r, ctxPaths)
@@ -126,9 +129,25 @@ func (g *tplGen) malformed() string {
 	return string(rs)
 }
 
+// number LITERALS written in the source: parsing them is part of evaluating a template
+func numberLiterals() []string {
+	digits := func(n int) string { return strings.Repeat("1234567890", n/10+1)[:n] }
+	zeros := func(n int) string { return strings.Repeat("0", n) }
+	var out []string
+	for _, n := range []int{20, 100, 1000, 1001, 5000} {
+		out = append(out, digits(n), "0."+zeros(n-1)+"1", "0."+digits(n), digits(n)+"."+digits(n), "1."+zeros(n), "1"+zeros(n), zeros(n)+"7", zeros(n)+"."+zeros(n), "7."+digits(3)+zeros(n))
+	}
+	return append(out, "00", "007", "0.0", "00.00", ".5", "5.", "1.5.5", "1e5", "1E-5", "0x10", "1_000")
+}
+
 func tplCorpus() []string {
 	deep := func(n int) string { return "@(" + strings.Repeat("(", n) + "1" + strings.Repeat(")", n) + ")" }
-	return []string{
+	var lits []string
+	for _, l := range numberLiterals() {
+		lits = append(lits, "@("+l+")", "@("+l+" + 1)", "@(text("+l+") & \"\")", "@(-"+l+" = "+l+")", "@(array("+l+", \"\")[0])")
+	}
+	lits = append(lits, "@(format(array(\"a\\nb\", \"\")))", "@(format(array(\"\", \"x\\ny\")))", "@(format(array(array(), \"a\\nb\")))", "@(format(object(\"a\", \"\", \"b\", \"x\\ny\")))")
+	return append(lits, []string{
 		"", "@", "@@", "@(", "@()", "@(\"", "@(\"a\\\")", "@(\"a\\\\\")", "@contact.", "@contact..name", "@(contact.)", "@(1 / 0)", "@(mod(5, 0))",
 		"@(round(1.5, 999999999))", "@(round_up(1.5, -999999999))", "@(round_down(1.5, 999999999))", "@(repeat(\"\", 999999999))",
 		"@(parse_json(\"1E999999999\"))", "@(parse_json(\"1E999999999\") + 1)", "@(json(parse_json(\"[1E-999999999]\")))",
@@ -144,7 +163,7 @@ func tplCorpus() []string {
 		"@(" + strings.Repeat("1+", 2000) + "1)", "@(" + strings.Repeat("-", 2000) + "1)", "@(a" + strings.Repeat(".a", 2000) + ")",
 		"@(a" + strings.Repeat("[0]", 1000) + ")", "@(upper(" + strings.Repeat("upper(", 300) + "1" + strings.Repeat(")", 301) + ")",
 		"@(\"" + strings.Repeat("\\\\", 3000) + "\")", strings.Repeat("é😀", 4000) + "@contact.name",
-	}
+	}...)
 }
 
 func templateTasks(r *hx.Rand, total int) []*task {
